@@ -82,6 +82,7 @@ fn hints_key(c: &Circuit, sites: &[Site]) -> String {
             EncSub::Honest => {}
             EncSub::Raw(h) => parts.push(format!("enc{}(raw:{})", i, s_class(&fq_hex(h)))),
             EncSub::EncodeOf(_) => parts.push(format!("enc{}(other_element)", i)),
+            EncSub::NegHonest => parts.push(format!("enc{}(negated)", i)),
         }
     }
     if parts.is_empty() {
@@ -270,6 +271,8 @@ fn judge_c14(w: &mut World, c: &Circuit, sat: Option<bool>, sites: &[Site]) {
                 let witnessed: Fq = match c.enc_hints.get(*enc_site) {
                     Some(EncSub::Raw(h)) => fq_hex(h),
                     Some(EncSub::EncodeOf(src)) => esrc(src).vartime_compress_to_field(),
+                    Some(EncSub::NegHonest) => -Element::verif_from_affine_unchecked(bridge::big_to_fq(&offered.0), bridge::big_to_fq(&offered.1))
+                        .vartime_compress_to_field(),
                     _ => Element::verif_from_affine_unchecked(bridge::big_to_fq(&offered.0), bridge::big_to_fq(&offered.1))
                         .vartime_compress_to_field(),
                 };
@@ -278,6 +281,7 @@ fn judge_c14(w: &mut World, c: &Circuit, sat: Option<bool>, sites: &[Site]) {
                     None | Some(EncSub::Honest) => "honest".to_string(),
                     Some(EncSub::Raw(h)) => format!("raw:{}", s_class(&fq_hex(h))),
                     Some(EncSub::EncodeOf(_)) => "other_element".to_string(),
+                    Some(EncSub::NegHonest) => "negated".to_string(),
                 };
                 match val_e(w, *out) {
                     Some(Ok(g)) => {
@@ -331,6 +335,20 @@ fn judge_c14(w: &mut World, c: &Circuit, sat: Option<bool>, sites: &[Site]) {
                                 o,
                                 x == y
                             ),
+                        );
+                    } else {
+                        w.probe("relation_checked_on_satisfied_system");
+                    }
+                }
+            }
+            Rel::IsZero { a, out } => {
+                if let (Some(Ok(x)), Some(o)) = (val_e(w, *a), val_b(w, *out)) {
+                    if o != x.is_identity() {
+                        w.viol(
+                            "C14",
+                            "sat_but_output_differs",
+                            format!("gadget=is_zero;native={};hints={}", x.is_identity(), hk),
+                            format!("is_zero returned {} on an element whose native identity test is {}", o, x.is_identity()),
                         );
                     } else {
                         w.probe("relation_checked_on_satisfied_system");
